@@ -198,7 +198,7 @@ Lemma allow_opts_off o : allow_opts o -> plain_opts (set_allow o false).
 Proof. intros [_ [E L]]. split; [reflexivity|]. split; [exact E | exact L]. Qed.
 
 Theorem step_allow_sim o st op :
-  (op_kind op = KCopy -> codec_ok) -> sgood st -> allow_opts o -> op_dom op ->
+  sgood st -> allow_opts o -> op_dom op ->
   if absent_remove (dia o) (sval st) op
   then exists st', step o st op = Ok st' /\ sval st' = sval st /\ sgood st' /\ s_acc st' = s_acc st
   else match rfc_step (dia o) (sval st) (den_op op) with
@@ -206,10 +206,10 @@ Theorem step_allow_sim o st op :
        | RFail cz => exists e, step o st op = Err e /\ cause_rel cz e
        end.
 Proof.
-  intros CO G AO Dop.
+  intros G AO Dop.
   assert (Dec : op_kind op = KRemove \/ op_kind op <> KRemove) by (destruct (op_kind op); auto; right; discriminate).
   destruct Dec as [Ek|NR].
-  2: { pose proof (step_sim (set_allow o false) st op CO G (allow_opts_off o AO) Dop) as S.
+  2: { pose proof (step_sim (set_allow o false) st op G (allow_opts_off o AO) Dop) as S.
        rewrite (step_allow_off_dom o st op Dop NR) in S. change (dia (set_allow o false)) with (dia o) in S.
        unfold absent_remove. destruct (op_kind op); try congruence; exact S. }
   (* remove *)
@@ -271,7 +271,7 @@ Proof.
 Qed.
 
 (* the run with the option on, against the reference run of the stripped patch *)
-Theorem allow_strip_ref o : allow_opts o -> forall p, (has_copy p -> codec_ok) -> forall i i' st,
+Theorem allow_strip_ref o : allow_opts o -> forall p i i' st,
   sgood st -> Forall op_dom p ->
   match rfc_apply_from (dia o) i' (sval st) (map den_op (strip (dia o) (sval st) p)) with
   | Done doc => exists st', apply_from o i st p = AOk st' /\ sval st' = doc /\ sgood st'
@@ -280,21 +280,19 @@ Theorem allow_strip_ref o : allow_opts o -> forall p, (has_copy p -> codec_ok) -
                      nth_error p (k1 - i) = nth_error (strip (dia o) (sval st) p) (k - i')
   end.
 Proof.
-  intros AO. induction p as [|op p IH]; intros CO i i' st G D; cbn [strip].
+  intros AO. induction p as [|op p IH]; intros i i' st G D; cbn [strip].
   - cbn [map rfc_apply_from apply_from]. exists st. auto.
   - inversion D as [|? ? Dop Dp]; subst.
-    assert (CO1 : op_kind op = KCopy -> codec_ok) by (intro K; apply CO; exists op; split; [now left | exact K]).
-    assert (CO2 : has_copy p -> codec_ok) by (intros [op' [Hin K]]; apply CO; exists op'; split; [now right | exact K]).
-    pose proof (step_allow_sim o st op CO1 G AO Dop) as S. cbn [apply_from].
+    pose proof (step_allow_sim o st op G AO Dop) as S. cbn [apply_from].
     destruct (absent_remove (dia o) (sval st) op).
     + destruct S as [st' [S1 [S2 [S3 _]]]]. rewrite S1.
-      specialize (IH CO2 (S i) i' st' S3 Dp). rewrite S2 in IH.
+      specialize (IH (S i) i' st' S3 Dp). rewrite S2 in IH.
       destruct (rfc_apply_from (dia o) i' (sval st) (map den_op (strip (dia o) (sval st) p))) as [doc|k cz]; [exact IH|].
       destruct IH as [k1 [e [I1 [I2 [I3 [I4 I5]]]]]]. exists k1, e. split; auto. split; auto. split; [lia|]. split; auto.
       replace (k1 - i)%nat with (S (k1 - S i))%nat by lia. exact I5.
     + cbn [map rfc_apply_from]. destruct (rfc_step (dia o) (sval st) (den_op op)) as [j'|cz].
       * destruct S as [st' [S1 [S2 S3]]]. rewrite S1.
-        specialize (IH CO2 (S i) (S i') st' S3 Dp). rewrite S2 in IH.
+        specialize (IH (S i) (S i') st' S3 Dp). rewrite S2 in IH.
         destruct (rfc_apply_from (dia o) (S i') j' (map den_op (strip (dia o) j' p))) as [doc|k cz]; [exact IH|].
         destruct IH as [k1 [e [I1 [I2 [I3 [I4 I5]]]]]]. exists k1, e. split; auto. split; auto. split; [lia|]. split; [lia|].
         replace (k1 - i)%nat with (S (k1 - S i))%nat by lia. replace (k - i')%nat with (S (k - S i'))%nat by lia. exact I5.
@@ -306,7 +304,7 @@ Qed.
    off, P with exactly the skipped removes deleted: both succeed with the same document value, or
    both fail, at the same operation, for the same reference cause *)
 Theorem allow_equals_stripped o p i st :
-  allow_opts o -> (has_copy p -> codec_ok) -> sgood st -> Forall op_dom p ->
+  allow_opts o -> sgood st -> Forall op_dom p ->
   let p' := strip (dia o) (sval st) p in
   match apply_from (set_allow o false) i st p' with
   | AOk st2 => exists st1, apply_from o i st p = AOk st1 /\ sval st1 = sval st2 /\ sgood st1 /\ sgood st2
@@ -315,10 +313,9 @@ Theorem allow_equals_stripped o p i st :
   | APanic _ => False
   end.
 Proof.
-  intros AO CO G D p'.
-  pose proof (allow_strip_ref o AO p CO i i st G D) as A. fold p' in A.
-  pose proof (apply_sim (set_allow o false) (allow_opts_off o AO) p'
-                (fun H => CO (strip_has_copy _ _ _ H)) i st G (strip_dom _ _ _ D)) as B.
+  intros AO G D p'.
+  pose proof (allow_strip_ref o AO p i i st G D) as A. fold p' in A.
+  pose proof (apply_sim (set_allow o false) (allow_opts_off o AO) p' i st G (strip_dom _ _ _ D)) as B.
   change (dia (set_allow o false)) with (dia o) in B.
   destruct (rfc_apply_from (dia o) i (sval st) (map den_op p')) as [doc|k cz].
   - destruct B as [st2 [B1 [B2 B3]]]. rewrite B1. destruct A as [st1 [A1 [A2 A3]]].
@@ -329,11 +326,11 @@ Qed.
 
 (* in particular the failed-test sentinel is reported by one run exactly when by the other *)
 Corollary allow_equals_stripped_test o p i st k e2 :
-  allow_opts o -> (has_copy p -> codec_ok) -> sgood st -> Forall op_dom p ->
+  allow_opts o -> sgood st -> Forall op_dom p ->
   apply_from (set_allow o false) i st (strip (dia o) (sval st) p) = AErr k e2 ->
   exists k1 e1, apply_from o i st p = AErr k1 e1 /\ (e1 = ETestFailed <-> e2 = ETestFailed).
 Proof.
-  intros AO CO G D H. pose proof (allow_equals_stripped o p i st AO CO G D) as T. cbv zeta in T. rewrite H in T.
+  intros AO G D H. pose proof (allow_equals_stripped o p i st AO G D) as T. cbv zeta in T. rewrite H in T.
   destruct T as [k1 [e1 [cz [T1 [T2 [T3 _]]]]]]. exists k1, e1. split; auto.
   rewrite (cause_rel_test_iff cz e1 T2), (cause_rel_test_iff cz e2 T3). reflexivity.
 Qed.
@@ -527,7 +524,7 @@ Lemma Forall_repeat {A} (P : A -> Prop) x n : P x -> Forall P (repeat x n).
 Proof. intro H. induction n; simpl; constructor; auto. Qed.
 
 Lemma ngood_rawnull : ngood (NRaw TNull).
-Proof. split; reflexivity. Qed.
+Proof. repeat split. Qed.
 
 (* ---- the reference: what ensurePathExists builds, on values ---- *)
 (* the path domain of C14, per decoded token: a member name or a canonical non-negative index
@@ -669,7 +666,7 @@ Proof.
     + cbv zeta. cbn. exists (KAry NNil []). split; [|split; reflexivity].
       split; [|exact I]. cbn [node_of_con]. apply ngood_ary. constructor.
     + exists (KDoc NNil [] []). split; [|split; reflexivity].
-      split; [|exact I]. cbn [node_of_con]. apply ngood_doc. split; [|constructor].
+      split; [|exact I]. cbn [node_of_con]. apply ngood_doc. split; [|split; constructor].
       split; [constructor|]. split; [constructor|]. intro k. reflexivity.
 Qed.
 
